@@ -1,35 +1,47 @@
 ---------------------------- MODULE ProcessManager ----------------------------
-(* tfel::system::ProcessManager::execute and the SIGCHLD path through SignalManager - C30.
+(* tfel::system::ProcessManager::execute and the SIGCHLD path through SignalManager - C30 (and C52).
    (src/System/ProcessManager.cxx, src/System/SignalManager.cxx)
 
    Each thread t owns one ProcessManager and runs one command with it, as tfel-check's TestLauncher
    does for every @Command:
 
-     ProcessManager()   : register a SIGCHLD callback in the process-wide SignalManager map   (Ctor)
-     execute(cmd)       : createProcess (fork/exec, isRunning := true)                       (Fork)
-                          wait(pid): if (!isRunning) return;                                 (Test)
+     ProcessManager()   : registerHandler: under `callbacksAccess`, insert the SIGCHLD callback   (CtorLock, Ctor)
+     execute(cmd)       : createProcess (fork/exec, isRunning := true, under `processesAccess`
+                          with all signals blocked)                                           (Fork)
+                          wait(pid): findProcess under `processesAccess`                      (FindLock, FindUnlock)
+                                     if (!isRunning) return;                                 (Test)
                                      waitpid(pid, &status, 0);                               (Waitpid)
                                      setProcessExitStatus(p, status);                        (Set)
                           findProcess; throw unless exited with value 0                      (Verdict)
-     ~ProcessManager()  : removeHandler (erases and deletes the callback), then the object dies (Remove, Destroy)
+     ~ProcessManager()  : all signals blocked; removeHandler erases and deletes the callback under
+                          `callbacksAccess`, then the object dies                            (Remove, Destroy)
 
    SIGCHLD is process-directed: the kernel runs SignalManager::treatAction on ANY thread that does not
-   block it (Deliver picks the host).  treatAction copies the callback map under `callbacksAccess`
-   (the snapshot), RELEASES the lock, then executes every snapshotted callback (Exec) - each one is
-   ProcessManager::sigChildHandler of some manager, which under `processesAccess` does
-   waitpid(WNOHANG) on its running children and records their exit status.  While the handler runs,
-   its host thread is suspended; if the host was blocked in waitpid, that call returns -1 (EINTR)
-   afterwards.  A waitpid on a child that the handler already reaped returns -1 (ECHILD); in both
-   cases `status` is left as it was (uninitialised).
+   block it (Deliver picks the host; the host's own code is suspended until the handler returns).
+   treatAction locks `callbacksAccess` and copies the callbacks of the signal (Snap), then executes every
+   one of them (Exec) - each is ProcessManager::sigChildHandler of some manager, which under
+   `processesAccess` does waitpid(WNOHANG) on its running children and records their exit status.
+   If the host was blocked in waitpid, that call returns -1 (EINTR) afterwards.  A waitpid on a child
+   that the handler already reaped returns -1 (ECHILD); in both cases `status` is left uninitialised.
 
-   CheckWaitpid = FALSE : the tree as pinned - wait() ignores waitpid's return value.
-   CheckWaitpid = TRUE  : repaired wait() - retry on EINTR, and use `status` only if waitpid
-                          returned the pid. *)
+   Both mutexes are ordinary (non signal-safe) mutexes: a handler that needs a mutex held by the code
+   it interrupted waits forever (SelfDeadlock).
+
+   The constants select the tree that is modelled:
+   CheckWaitpid = FALSE : pinned wait() ignores waitpid's return value.
+                  TRUE  : repaired wait() - retry on EINTR, use `status` only if waitpid returned the pid.
+   ExecLocked   = FALSE : pinned treatAction releases `callbacksAccess` after the copy and executes the
+                          snapshot unlocked: ~ProcessManager of another thread can delete a callback
+                          that is still to be executed (use after free).
+                  TRUE  : repaired treatAction keeps the lock until the last callback returned and skips
+                          callbacks that are no longer registered.
+   MaskCritical = FALSE : pinned findProcess / registerHandler hold their mutex with signals enabled.
+                  TRUE  : repaired: all signals are blocked on the thread while it holds the mutex. *)
 EXTENDS Integers, FiniteSets, TLC
 CONSTANTS T,             \* threads that own a manager (= managers = commands)
           Extra,         \* threads without manager (main thread, idle pool workers) that can host a handler
           Kinds,         \* how a child ends: subset of {"ok", "fail", "signal"}
-          CheckWaitpid
+          CheckWaitpid, ExecLocked, MaskCritical
 Hosts == T \cup Extra
 VARIABLES child,    \* [T -> "none" | "running" | "zombie" | "reaped"]
           ckind,    \* [T -> Kinds]  the way the child of t terminates
@@ -43,37 +55,62 @@ VARIABLES child,    \* [T -> "none" | "running" | "zombie" | "reaped"]
           pending,  \* a SIGCHLD is pending for the process
           hact,     \* hosts currently inside treatAction (SIGCHLD is masked only on the host itself)
           hsnap,    \* [Hosts -> SUBSET T] callbacks still to execute from the host's snapshot
+          hwait,    \* hosts that entered treatAction and have not yet locked callbacksAccess / copied the callbacks
+          cbl,      \* holder of callbacksAccess: {} (free), {<<"code", t>>} (registerHandler) or {<<"handler", h>>}
+          pl,       \* holder of processesAccess: {} (free) or {t}, the thread inside findProcess (all other critical
+                    \* sections on it are single steps of this model)
           uaf       \* a deleted callback was executed (use after free)
-vars == <<child, ckind, mgr, reg, running, result, wpc, lst, verdict, pending, hact, hsnap, uaf>>
+vars == <<child, ckind, mgr, reg, running, result, wpc, lst, verdict, pending, hact, hsnap, hwait, cbl, pl, uaf>>
 
 Init == /\ child = [t \in T |-> "none"] /\ ckind \in [T -> Kinds] /\ mgr = [t \in T |-> "unborn"]
         /\ reg = [t \in T |-> FALSE] /\ running = [t \in T |-> FALSE] /\ result = [t \in T |-> "unset"]
         /\ wpc = [t \in T |-> "ctor"] /\ lst = [t \in T |-> "uninit"] /\ verdict = [t \in T |-> "none"]
         /\ pending = FALSE /\ hact = {} /\ hsnap = [h \in Hosts |-> {}] /\ uaf = FALSE
+        /\ hwait = {} /\ cbl = {} /\ pl = {}
 
 \* a thread executes its own code only while it does not host the signal handler
 Runs(t) == t \notin hact
 
-Ctor(t) == /\ wpc[t] = "ctor" /\ Runs(t)
+\* registerHandler: lock callbacksAccess ...
+CtorLock(t) == /\ wpc[t] = "ctor" /\ Runs(t) /\ cbl = {}
+               /\ cbl' = {<<"code", t>>} /\ wpc' = [wpc EXCEPT ![t] = "ctor2"]
+               /\ UNCHANGED <<child, ckind, mgr, reg, running, result, lst, verdict, pending, hact, hsnap, hwait, pl, uaf>>
+\* ... insert the callback, unlock
+Ctor(t) == /\ wpc[t] = "ctor2" /\ Runs(t)
            /\ mgr' = [mgr EXCEPT ![t] = "alive"] /\ reg' = [reg EXCEPT ![t] = TRUE]
-           /\ wpc' = [wpc EXCEPT ![t] = "fork"]
-           /\ UNCHANGED <<child, ckind, running, result, lst, verdict, pending, hact, hsnap, uaf>>
-Fork(t) == /\ wpc[t] = "fork" /\ Runs(t)
+           /\ cbl' = {} /\ wpc' = [wpc EXCEPT ![t] = "fork"]
+           /\ UNCHANGED <<child, ckind, running, result, lst, verdict, pending, hact, hsnap, hwait, pl, uaf>>
+\* createProcess: all signals blocked, the process is recorded under processesAccess
+Fork(t) == /\ wpc[t] = "fork" /\ Runs(t) /\ pl = {}
            /\ child' = [child EXCEPT ![t] = "running"] /\ running' = [running EXCEPT ![t] = TRUE]
-           /\ wpc' = [wpc EXCEPT ![t] = "test"]
-           /\ UNCHANGED <<ckind, mgr, reg, result, lst, verdict, pending, hact, hsnap, uaf>>
+           /\ wpc' = [wpc EXCEPT ![t] = "find"]
+           /\ UNCHANGED <<ckind, mgr, reg, result, lst, verdict, pending, hact, hsnap, hwait, cbl, pl, uaf>>
+\* wait() -> findProcess: lock processesAccess, search, unlock
+FindLock(t) == /\ wpc[t] = "find" /\ Runs(t) /\ pl = {}
+               /\ pl' = {t} /\ wpc' = [wpc EXCEPT ![t] = "found"]
+               /\ UNCHANGED <<child, ckind, mgr, reg, running, result, lst, verdict, pending, hact, hsnap, hwait, cbl, uaf>>
+FindUnlock(t) == /\ wpc[t] = "found" /\ Runs(t)
+                 /\ pl' = {} /\ wpc' = [wpc EXCEPT ![t] = "test"]
+                 /\ UNCHANGED <<child, ckind, mgr, reg, running, result, lst, verdict, pending, hact, hsnap, hwait, cbl, uaf>>
 \* the child terminates: it becomes a zombie and the kernel raises SIGCHLD
 ChildExit(t) == /\ child[t] = "running"
                 /\ child' = [child EXCEPT ![t] = "zombie"] /\ pending' = TRUE
-                /\ UNCHANGED <<ckind, mgr, reg, running, result, wpc, lst, verdict, hact, hsnap, uaf>>
-\* the kernel delivers SIGCHLD to some thread that does not block it (the destructor blocks all signals
-\* between "remove" and "destroy"; a host blocks it while it runs the handler); treatAction snapshots
-\* the callbacks under callbacksAccess
-CanHost(h) == h \notin hact /\ (h \in T => wpc[h] \notin {"remove", "destroy", "done"})
+                /\ UNCHANGED <<ckind, mgr, reg, running, result, wpc, lst, verdict, hact, hsnap, hwait, cbl, pl, uaf>>
+\* the kernel delivers SIGCHLD to some thread that does not block it: the destructor blocks all signals
+\* between "remove" and "destroy", a host blocks them while it runs the handler (sa_mask is full) and the
+\* repaired critical sections block them as well
+CanHost(h) == /\ h \notin hact
+              /\ h \in T => /\ wpc[h] \notin {"remove", "destroy", "done"}
+                            /\ MaskCritical => wpc[h] \notin {"ctor2", "found"}
 Deliver(h) == /\ pending /\ CanHost(h)
-              /\ pending' = FALSE /\ hact' = hact \cup {h}
-              /\ hsnap' = [hsnap EXCEPT ![h] = {m \in T : reg[m]}]
-              /\ UNCHANGED <<child, ckind, mgr, reg, running, result, wpc, lst, verdict, uaf>>
+              /\ pending' = FALSE /\ hact' = hact \cup {h} /\ hwait' = hwait \cup {h}
+              /\ UNCHANGED <<child, ckind, mgr, reg, running, result, wpc, lst, verdict, hsnap, cbl, pl, uaf>>
+\* treatAction locks callbacksAccess and copies the callbacks of SIGCHLD
+Snap(h) == /\ h \in hwait /\ cbl = {}
+           /\ hwait' = hwait \ {h}
+           /\ hsnap' = [hsnap EXCEPT ![h] = {m \in T : reg[m]}]
+           /\ cbl' = IF ExecLocked THEN {<<"handler", h>>} ELSE {}
+           /\ UNCHANGED <<child, ckind, mgr, reg, running, result, wpc, lst, verdict, pending, hact, pl, uaf>>
 \* sigChildHandler of manager m, under processesAccess: waitpid(WNOHANG) + setProcessExitStatus
 Reap(m) == IF running[m] /\ child[m] = "zombie"
            THEN /\ child' = [child EXCEPT ![m] = "reaped"]
@@ -81,25 +118,28 @@ Reap(m) == IF running[m] /\ child[m] = "zombie"
                 /\ result' = [result EXCEPT ![m] = ckind[m]]
            ELSE UNCHANGED <<child, running, result>>
 \* one callback of host h's snapshot
-Exec(h, m) == /\ h \in hact /\ m \in hsnap[h]
+Exec(h, m) == /\ h \in hact \ hwait /\ m \in hsnap[h]
               /\ hsnap' = [hsnap EXCEPT ![h] = @ \ {m}]
               /\ IF mgr[m] # "alive" \/ ~reg[m]
-                 THEN uaf' = TRUE /\ UNCHANGED <<child, running, result>>
-                 ELSE uaf' = uaf /\ Reap(m)
-              /\ UNCHANGED <<ckind, mgr, reg, wpc, lst, verdict, pending, hact>>
+                 THEN /\ uaf' = (uaf \/ ~ExecLocked)      \* repaired: skipped, pinned: executed although deleted
+                      /\ UNCHANGED <<child, running, result>>
+                 ELSE /\ pl = {}                           \* the handler needs processesAccess
+                      /\ uaf' = uaf /\ Reap(m)
+              /\ UNCHANGED <<ckind, mgr, reg, wpc, lst, verdict, pending, hact, hwait, cbl, pl>>
 \* treatAction returns; if the host was blocked in waitpid the system call fails with EINTR
-HDone(h) == /\ h \in hact /\ hsnap[h] = {}
+HDone(h) == /\ h \in hact \ hwait /\ hsnap[h] = {}
             /\ hact' = hact \ {h}
+            /\ cbl' = IF ExecLocked THEN {} ELSE cbl
             /\ IF h \in T /\ wpc[h] = "waitpid"
                THEN wpc' = [wpc EXCEPT ![h] =
                               IF CheckWaitpid
                               THEN "waitpid"                                      \* repaired: retry on EINTR
                               ELSE "set"]                                         \* pinned: status unread
                ELSE wpc' = wpc
-            /\ UNCHANGED <<child, ckind, mgr, reg, running, result, lst, verdict, pending, hsnap, uaf>>
+            /\ UNCHANGED <<child, ckind, mgr, reg, running, result, lst, verdict, pending, hsnap, hwait, pl, uaf>>
 Test(t) == /\ wpc[t] = "test" /\ Runs(t)
            /\ wpc' = [wpc EXCEPT ![t] = IF running[t] THEN "waitpid" ELSE "verdict"]
-           /\ UNCHANGED <<child, ckind, mgr, reg, running, result, lst, verdict, pending, hact, hsnap, uaf>>
+           /\ UNCHANGED <<child, ckind, mgr, reg, running, result, lst, verdict, pending, hact, hsnap, hwait, cbl, pl, uaf>>
 \* waitpid(pid, &status, 0) completes: the child is a zombie (returns pid) or was already reaped (ECHILD)
 Waitpid(t) == /\ wpc[t] = "waitpid" /\ Runs(t) /\ child[t] \in {"zombie", "reaped"}
               /\ IF child[t] = "zombie"
@@ -107,7 +147,7 @@ Waitpid(t) == /\ wpc[t] = "waitpid" /\ Runs(t) /\ child[t] \in {"zombie", "reape
                       /\ wpc' = [wpc EXCEPT ![t] = "set"]
                  ELSE /\ UNCHANGED <<child, lst>>
                       /\ wpc' = [wpc EXCEPT ![t] = IF CheckWaitpid THEN "verdict" ELSE "set"]
-              /\ UNCHANGED <<ckind, mgr, reg, running, result, verdict, pending, hact, hsnap, uaf>>
+              /\ UNCHANGED <<ckind, mgr, reg, running, result, verdict, pending, hact, hsnap, hwait, cbl, pl, uaf>>
 \* setProcessExitStatus(p, status): an uninitialised status is an arbitrary value
 Set(t) == /\ wpc[t] = "set" /\ Runs(t)
           /\ IF lst[t] = "uninit"
@@ -115,36 +155,41 @@ Set(t) == /\ wpc[t] = "set" /\ Runs(t)
              ELSE result' = [result EXCEPT ![t] = lst[t]]
           /\ running' = [running EXCEPT ![t] = FALSE]
           /\ wpc' = [wpc EXCEPT ![t] = "verdict"]
-          /\ UNCHANGED <<child, ckind, mgr, reg, lst, verdict, pending, hact, hsnap, uaf>>
-Verdict(t) == /\ wpc[t] = "verdict" /\ Runs(t)
+          /\ UNCHANGED <<child, ckind, mgr, reg, lst, verdict, pending, hact, hsnap, hwait, cbl, pl, uaf>>
+\* execute() looks the process up again (findProcess, one step here) and reports
+Verdict(t) == /\ wpc[t] = "verdict" /\ Runs(t) /\ pl = {}
               /\ verdict' = [verdict EXCEPT ![t] = result[t]]
               /\ wpc' = [wpc EXCEPT ![t] = "remove"]
-              /\ UNCHANGED <<child, ckind, mgr, reg, running, result, lst, pending, hact, hsnap, uaf>>
+              /\ UNCHANGED <<child, ckind, mgr, reg, running, result, lst, pending, hact, hsnap, hwait, cbl, pl, uaf>>
 \* ~ProcessManager: signals blocked on this thread, removeHandler deletes the callback under callbacksAccess
-Remove(t) == /\ wpc[t] = "remove" /\ Runs(t)
+Remove(t) == /\ wpc[t] = "remove" /\ Runs(t) /\ cbl = {}
              /\ reg' = [reg EXCEPT ![t] = FALSE]
              /\ wpc' = [wpc EXCEPT ![t] = "destroy"]
-             /\ UNCHANGED <<child, ckind, mgr, running, result, lst, verdict, pending, hact, hsnap, uaf>>
+             /\ UNCHANGED <<child, ckind, mgr, running, result, lst, verdict, pending, hact, hsnap, hwait, cbl, pl, uaf>>
 Destroy(t) == /\ wpc[t] = "destroy" /\ Runs(t)
               /\ mgr' = [mgr EXCEPT ![t] = "destroyed"]
               /\ wpc' = [wpc EXCEPT ![t] = "done"]
-              /\ UNCHANGED <<child, ckind, reg, running, result, lst, verdict, pending, hact, hsnap, uaf>>
+              /\ UNCHANGED <<child, ckind, reg, running, result, lst, verdict, pending, hact, hsnap, hwait, cbl, pl, uaf>>
 Finished == (\A t \in T : wpc[t] = "done") /\ hact = {} /\ UNCHANGED vars
 
-Next == \/ \E t \in T : Ctor(t) \/ Fork(t) \/ ChildExit(t) \/ Test(t) \/ Waitpid(t) \/ Set(t) \/ Verdict(t)
-                        \/ Remove(t) \/ Destroy(t)
-        \/ \E h \in Hosts : Deliver(h) \/ HDone(h) \/ \E m \in T : Exec(h, m)
+Next == \/ \E t \in T : CtorLock(t) \/ Ctor(t) \/ Fork(t) \/ FindLock(t) \/ FindUnlock(t) \/ ChildExit(t) \/ Test(t)
+                        \/ Waitpid(t) \/ Set(t) \/ Verdict(t) \/ Remove(t) \/ Destroy(t)
+        \/ \E h \in Hosts : Deliver(h) \/ Snap(h) \/ HDone(h) \/ \E m \in T : Exec(h, m)
         \/ Finished
 Spec == Init /\ [][Next]_vars
 FairSpec == Spec /\ WF_vars(Next)
 
 TypeOK == /\ child \in [T -> {"none", "running", "zombie", "reaped"}]
-          /\ wpc \in [T -> {"ctor", "fork", "test", "waitpid", "set", "verdict", "remove", "destroy", "done"}]
-          /\ hact \subseteq Hosts /\ hsnap \in [Hosts -> SUBSET T]
+          /\ wpc \in [T -> {"ctor", "ctor2", "fork", "find", "found", "test", "waitpid", "set", "verdict", "remove",
+                            "destroy", "done"}]
+          /\ hact \subseteq Hosts /\ hwait \subseteq hact /\ hsnap \in [Hosts -> SUBSET T]
+          /\ pl \in SUBSET T /\ Cardinality(pl) <= 1 /\ Cardinality(cbl) <= 1
 \* C30: execute() succeeds exactly when the child exited with status 0; a signal death is reported as such
 Faithful == \A t \in T : wpc[t] \in {"remove", "destroy", "done"} => verdict[t] = ckind[t]
 \* the handler never runs a callback whose manager is being or has been destroyed
 NoUAF == ~uaf
+\* the handler never runs on a thread whose interrupted code holds a mutex that the handler needs
+NoSelfDeadlock == \A h \in hact : h \notin pl /\ <<"code", h>> \notin cbl
 \* every command is eventually accounted for
 Terminates == <>(\A t \in T : wpc[t] = "done")
 \* behaviours after a use-after-free are meaningless: Faithful is judged on the others
